@@ -28,13 +28,14 @@ import (
 )
 
 type childResult struct {
-	Idx      int      `json:"idx"`
-	Coq      string   `json:"coq"`
-	Desc     []string `json:"desc"`
-	Blocked  bool     `json:"blocked"`
-	Complete bool     `json:"complete"`
-	NotQuiet bool     `json:"notquiet"`
-	Feat     features `json:"feat"`
+	Idx       int      `json:"idx"`
+	Coq       string   `json:"coq"`
+	Desc      []string `json:"desc"`
+	Blocked   bool     `json:"blocked"`
+	Complete  bool     `json:"complete"`
+	NotQuiet  bool     `json:"notquiet"`
+	Ambiguous bool     `json:"ambiguous"`
+	Feat      features `json:"feat"`
 }
 
 type features struct {
@@ -93,15 +94,16 @@ func childMain() {
 			fmt.Fprintf(outw, "S %d\n", sc.Idx)
 			outw.Flush()
 			var ex execResult
+			var tr traceOut
 			for attempt := 0; attempt < 3; attempt++ {
 				ex = runScript(sc)
-				if !ex.notQuiet {
+				tr = annotate(ex)
+				if !ex.notQuiet && !(tr.ambiguous && !ex.blocked) {
 					break
 				}
 			}
-			tr := annotate(ex)
 			res := childResult{Idx: sc.Idx, Coq: caseCoq(tr, ex.blocked, false, ex.complete && !ex.notQuiet), Desc: tr.desc,
-				Blocked: ex.blocked, Complete: ex.complete, NotQuiet: ex.notQuiet, Feat: featuresOf(ex, tr)}
+				Blocked: ex.blocked, Complete: ex.complete, NotQuiet: ex.notQuiet, Ambiguous: tr.ambiguous && !ex.blocked, Feat: featuresOf(ex, tr)}
 			js, _ := json.Marshal(res)
 			outw.WriteString("R ")
 			outw.Write(js)
@@ -231,8 +233,14 @@ func lastLines(s string, k int) string {
 func stimString(st Stim) string {
 	switch st.Op {
 	case opSub:
-		return fmt.Sprintf("Subscribe(cap=%d,filter=%s,timeout=%dms,onFiltered=%v,onTimeout=%v)", st.Cap, fcodeCoq(st),
-			tmoTicks[st.Tmo]*int(tickDur.Milliseconds()), st.OnF, st.OnT)
+		cb := func(set bool, act int) string {
+			if !set {
+				return "false"
+			}
+			return []string{"true", "closes-own-subscriber", "closes-publication"}[act]
+		}
+		return fmt.Sprintf("Subscribe(cap=%d,filter=%s,timeout=%dms,onFiltered=%s,onTimeout=%s)", st.Cap, fcodeCoq(st),
+			tmoTicks[st.Tmo]*int(tickDur.Milliseconds()), cb(st.OnF, st.CbF), cb(st.OnT, st.CbT))
 	case opPub:
 		return fmt.Sprintf("Publish(%d)", st.M)
 	case opRecv:
@@ -331,7 +339,7 @@ func main() {
 
 	w := cw.New(*out, "Corr"+*prop)
 	w.Chunk = 100
-	nPanic, nBlocked, nNotQuiet := 0, 0, 0
+	nPanic, nBlocked, nNotQuiet, nAmbiguous := 0, 0, 0, 0
 	for _, sc := range scripts {
 		o := results[sc.Idx]
 		stims := make([]string, len(sc.Stims))
@@ -355,6 +363,11 @@ func main() {
 			continue
 		}
 		r := o.res
+		if r.Ambiguous {
+			// three attempts, each time a callback's Close overlapped another Publish call: nothing can be said
+			nAmbiguous++
+			continue
+		}
 		desc["trace"] = r.Desc
 		if r.Blocked {
 			nBlocked++
@@ -372,6 +385,7 @@ func main() {
 	w.Extra["scripts_panicked"] = nPanic
 	w.Extra["scripts_blocked"] = nBlocked
 	w.Extra["scripts_not_quiescent"] = nNotQuiet
+	w.Extra["scripts_timing_discarded"] = nAmbiguous
 	if err := w.Flush(); err != nil {
 		fmt.Fprintln(os.Stderr, err)
 		os.Exit(2)
